@@ -130,9 +130,28 @@ def gen(seed, index, tier):
             ops += [{"op": "list", "dir": d, "proto": rng.choice(PROTOS)}, mutation(),
                     {"op": "advance", "dt": max(0.0, a)},
                     {"op": "list", "dir": d, "proto": rng.choice(PROTOS), "delay": dly}]
+        elif r < 0.07 + 0.12 + 0.06:
+            # a metadata file is edited twice within the same second, to text of the same length (what a
+            # parse memo validated by mtime and size cannot see); the listings in between must follow
+            d = rng.choice(dirs)
+            nm = rng.choice(sorted(present[d])) if present[d] else None
+            if nm:
+                kind = rng.choice(["names", "cap", "abstract"])
+                a, b = rng.sample(range(10, 100), 2)
+                a -= a % 7
+                b = b - b % 7 + 7 if b % 7 == 0 else b    # keep 'v % 7' one digit for both anyway
+                ops += [{"op": "meta", "dir": d, "kind": kind, "name": nm, "v": 10 + a % 80, "remove": False},
+                        {"op": "list", "dir": d, "proto": rng.choice(PROTOS)},
+                        {"op": "meta", "dir": d, "kind": kind, "name": nm, "v": 10 + b % 80, "remove": False},
+                        {"op": "advance", "dt": (L + 0.5) if L > 0 else 0.0},
+                        {"op": "list", "dir": d, "proto": rng.choice(PROTOS)}]
         elif r < 0.55:
             o = {"op": "list", "dir": rng.choice(listable), "proto": rng.choice(PROTOS)}
             r2 = rng.random()
+            if 0.16 <= r2 < 0.22 and L > 0:
+                # somebody removes the cache file while this request is being served (seen at the 2nd or 3rd
+                # look the request takes at it)
+                o["cachevanish"] = rng.choice([1, 1, 2])
             if r2 < 0.08:
                 o["delay"] = rng.choice([0.5, 1.0, 2.5, 30.0])
             elif r2 < 0.16:
@@ -263,6 +282,11 @@ def execute(sc, tape=None):
                     if op.get("scanfault"):
                         flt = simfs.Fault("listdir", op["dir"], op["scanfault"], nth="all")
                         run.fs.faults.append(flt)
+                    vflt = None
+                    if op.get("cachevanish") is not None:
+                        vflt = simfs.Fault("stat", (op["dir"] + "/" if op["dir"] else "") + cachefile, "vanish",
+                                           nth=op["cachevanish"])
+                        run.fs.faults.append(vflt)
                     if op.get("delay"):
                         # the first byte (after the TLS hello, if any) arrives at once - it is what the
                         # worker's protocol sniff waits for - and the rest of the request line late
@@ -271,6 +295,10 @@ def execute(sc, tape=None):
                     else:
                         c = run.client(req, tls=tls)
                     st = run.go()
+                    if vflt is not None:
+                        run.fs.faults.remove(vflt)
+                        if vflt.fired:
+                            counters["cache_file_removed_mid_request"] = counters.get("cache_file_removed_mid_request", 0) + 1
                     if flt is not None:
                         run.fs.faults.remove(flt)
                         if flt.fired:
